@@ -8,6 +8,7 @@ from struct import pack, unpack_from
 from typing import Any, Dict, List, Optional, Tuple, Type, Union
 from .codec import find_codec_info
 from .state import (
+    ADDITIONAL_STATUS_INFO_TEXT,
     MESSAGE_PAYLOAD,
     NPI,
     RECEIPTED_MESSAGE_ID,
@@ -495,7 +496,8 @@ class SubmitSm(Trackable, SmppMessage):
         def get_octet_string(count: int) -> str:
             nonlocal index
             octet_string: str = pdu[index : index + count].decode('ascii')
-            if octet_string.endswith(chr(0)):  # String may be null-terminated
+            if tag in (ADDITIONAL_STATUS_INFO_TEXT, RECEIPTED_MESSAGE_ID) and octet_string.endswith(chr(0)):
+                # C-Octet String params are null-terminated; a final zero octet of an Octet String is data
                 octet_string = octet_string[:-1]
             index += count
             return octet_string
